@@ -64,6 +64,7 @@ Section Ctor.
   Lemma ctor_go_sound rec : rec_ok rec -> rec_ok (ctor_go rec).
   Proof.
     intros IH f sg arg Hr. unfold ctor_go.
+    destruct (negb (lin_flat arg)); [ exact I | ].
     pose proof (trig_simplify_sign (period_of f) (odd_of f) (conj_odd_of f) arg) as Hs.
     destruct (trig_simplify_sound kv Hkv f arg Hr) as [Rr [[m [Ets [Bm Em]]] | [E Ix]]].
     - rewrite Ets. cbn [ts_conj ts_rarg ts_index ts_sign]. simpl lin_is_zero. cbn [res_ok].
